@@ -294,7 +294,7 @@ CHECKS = {
         "carry the hypothesis that no earlier variant accepts the content (serde's first-match semantics; ambiguous enums are outside the property). MODELLED, NOT VERIFIED: serde 1.0.229's "
         "derive output, std visitors and private Content/ContentDeserializer machinery (transcribed from the registry sources and tied to the real thing only by the correspondence run); "
         "Content-in-Content nesting is not modelled (model answers `unmodelled`; never reached by the round-trip / re-framing streams, skipped if a random byte mutation gets there); the f64->f32 "
-        "coercion of serde's f32 visitor behind Content is (Narrow.lean f64ToF32, theorem narrow_widen, stream f64-as-f32 against the real cast). The harness "
+        "coercion of serde's f32 visitor behind Content is (Narrow.lean f64ToF32, theorems narrow_rne (round to nearest even, all finite doubles) and narrow_widen, stream f64-as-f32 against the real cast). The harness "
         "builds each value from the op text through serde and refuses to run unless its own Serializer trace equals that text."),
  "C18": dict(
    text="Lean theorems on the shared universe NType (ints, bool, char, floats, strings, unit, Option, Vec, fixed arrays, tuples, BTreeMap, compositions) with natEnc/natDec transcribing "
